@@ -47,8 +47,9 @@ var breakable = []string{
 var signedRules = breakable
 
 var (
-	capMu   sync.Mutex
-	capSeen = map[string]int{}
+	capMu           sync.Mutex
+	capSeen         = map[string]int{}
+	fullySignedOnce sync.Once
 )
 
 func capped(key string) bool {
@@ -522,6 +523,14 @@ func evaluate(c *genCase) {
 		// every listed rule holds and there is no null signature: the statement is silent
 		if errU != nil {
 			r.Count("unsigned.fully_signed.code_rejects", 1)
+			if ledger.TxnSize(t) < 400 {
+				fullySignedOnce.Do(func() {
+					r.Extra("unsigned_fully_signed_example", map[string]interface{}{
+						"bytes": hex.EncodeToString(ledger.TxnBytes(t)), "Verify": fmt.Sprint(errS), "VerifyUnsigned": errU.Error(),
+						"note": "every listed rule holds and every signature is valid; VerifyUnsigned refuses because no signature is null (documented on the function, not in the property statement); not asserted",
+					})
+				})
+			}
 		} else {
 			r.Count("unsigned.fully_signed.code_accepts", 1)
 		}
@@ -566,8 +575,8 @@ func tally(check string, bad []string) {
 }
 
 func legWellFormed() {
-	n := txk.Scaled(r.Pick(24000, 600000))
-	nRandom := txk.Scaled(r.Pick(6000, 200000))
+	n := txk.Scaled(r.Pick(24000, 450000))
+	nRandom := txk.Scaled(r.Pick(6000, 150000))
 	vf.Parallel(n, 16, func(i int) {
 		g := r.Rand("wf", i)
 		c := gen(g)
